@@ -35,6 +35,9 @@ pub struct Sched {
     pub pending_cycle: bool,
     /// operation index from which every operation fails
     pub fail_from: Option<u64>,
+    /// operation index that fails exactly once (transient fault; the operations after it work again)
+    #[serde(default)]
+    pub fail_once_at: Option<u64>,
 }
 
 impl Sched {
@@ -76,6 +79,10 @@ impl Core {
     fn fault(&mut self) -> Option<io::Error> {
         let k = self.ops;
         self.ops += 1;
+        if self.sched.fail_once_at == Some(k) {
+            self.faults_returned += 1;
+            return Some(io::Error::new(io::ErrorKind::TimedOut, "injected transient I/O fault"));
+        }
         match self.sched.fail_from {
             Some(f) if k >= f => {
                 self.faults_returned += 1;
